@@ -73,7 +73,7 @@ class _Worker:
         self.finished = False
 
 
-def run_indexed(run_fn, n_cases, jobs=None, case_timeout=20.0, confirm_factor=10.0, progress=None,
+def run_indexed(run_fn, n_cases, jobs=None, case_timeout=20.0, confirm_factor=5.0, progress=None,
                 indices=None, stop_when=None, confirm=True):
     """Run run_fn(i) for i in range(n_cases) (or the given indices) over `jobs` forked workers.
 
@@ -168,11 +168,20 @@ def run_indexed(run_fn, n_cases, jobs=None, case_timeout=20.0, confirm_factor=10
             except OSError:
                 pass
     # confirm suspects alone with a larger cap
+    confirmed = 0
     for idx in suspects:
         if not confirm:
             outcomes[idx] = CaseOutcome(idx, "hang", None, f"no return within {case_timeout:.0f}s")
             continue
+        if confirmed >= 2:
+            # two real hangs are already established in this batch (the check fails anyway): do not spend
+            # confirm_factor x the cap on every further suspect
+            outcomes[idx] = CaseOutcome(idx, "hang", None,
+                                        f"no return within {case_timeout:.0f}s (not re-run alone: 2 hangs already confirmed)")
+            continue
         o = run_isolated(run_fn, idx, timeout=case_timeout * confirm_factor)
+        if o.status == "hang":
+            confirmed += 1
         if o.status == "hang":
             outcomes[idx] = o
         else:
